@@ -291,6 +291,14 @@ func (s *Symx) of(v ssa.Value, visiting map[ssa.Value]bool, depth int) *Term {
 		}
 		return &Term{Op: "extract", Name: fmt.Sprint(x.Index), Args: []*Term{tup}, Val: v}
 	case *ssa.Phi:
+		// a unit-step counter that starts at 0 and is used directly (`for i := 0; …; i++`) denotes the same sequence as
+		// the hidden counter of a range loop (`phi{-1, …}+1`): render both the same way, so that the loop form does not
+		// change any term
+		if init, ok := unitStepCounter(x); ok && init == 0 {
+			return &Term{Op: "binop", Name: "+", Args: []*Term{
+				{Op: "loop", Args: []*Term{{Op: "const", Name: "-1"}}, Val: v},
+				{Op: "const", Name: "1"}}, Val: v}
+		}
 		var alts []*Term
 		for _, e := range x.Edges {
 			alts = append(alts, rec(e))
@@ -329,6 +337,27 @@ func (s *Symx) of(v ssa.Value, visiting map[ssa.Value]bool, depth int) *Term {
 		return &Term{Op: "select", Val: v}
 	}
 	return &Term{Op: "unknown", Name: fmt.Sprintf("%T", v), Val: v}
+}
+
+// unitStepCounter: phi{k, phi+1} with a constant k.
+func unitStepCounter(p *ssa.Phi) (int64, bool) {
+	if len(p.Edges) != 2 {
+		return 0, false
+	}
+	var init int64
+	haveInit, haveStep := false, false
+	for _, e := range p.Edges {
+		if k, ok := ConstInt(e); ok {
+			init, haveInit = k, true
+			continue
+		}
+		if b, ok := e.(*ssa.BinOp); ok && b.Op == token.ADD {
+			if one, ok := ConstInt(b.Y); ok && one == 1 && b.X == ssa.Value(p) {
+				haveStep = true
+			}
+		}
+	}
+	return init, haveInit && haveStep
 }
 
 func isNillable(t types.Type) bool {
